@@ -33,8 +33,10 @@ RULE = ("kind ns (modelled): a seeded random parser of 1-3 typed arguments under
         "keys (same or another class, its own init_args); all channels. 10 % of the x cases are str-accepting options (str, Optional[str], "
         "List/Dict/Tuple/Set of str, Union[str, float|int|bool] in both orders, Any, Literal of look-alikes) holding strings that a "
         "YAML 1.1 / custom-float resolver could take for a non-string (signed and unsigned exponents, 1_000, 0x1F, 0o7, 1:30, .5, "
-        "5., .inf, yes/No/ON, NULL/~, dates, indicator characters, ...), given as objects or double-quoted in text. Every x case "
-        "also runs the dump leg: dump(cfg), parse_string of it compared with cfg modulo '__path__' "
+        "5., .inf, yes/No/ON, NULL/~, dates, indicator characters, ...), given as objects or double-quoted in text. A third class family keeps **kwargs (Legacy/Modern; Strict does not): "
+        "specs and declared defaults carry dict_kwargs, inputs keep the class, switch to the other **kwargs class or to one without, "
+        "with or without their own extras, in every spelling and channel (5 % dedicated cases plus the multi-option parsers). Every x "
+        "case also runs the dump leg: dump(cfg), parse_string of it compared with cfg modulo '__path__' "
         "entries, and the dump of that compared byte for byte. non-trivial = the first parse is accepted and some value changed representation or "
         "is a container; distinct = distinct (parser, input)")
 TRUSTED = [
@@ -57,6 +59,7 @@ ASSUMPTIONS = [
     "subcommand or link (those are C04/C06/C15/C17)",
     "declared defaults reach the model as the parser keeps them (ActionTypeHint.normalize_default, e.g. an Enum member becomes its "
     "name, is observed, not modelled); generated type hints are normalised the way typing does (nested Unions flattened, duplicates dropped)",
+    "equality of configurations ignores the ORDER of dict items (Python's == on dict / Namespace); the model tie still compares it",
     "metadata: the object re-parse must hand back the '__path__' entries it was given (full equality); the dump leg compares "
     "modulo '__path__' entries, which text cannot carry (DESIGN A.6)",
     "history: C10 quantifies over parsers and inputs, not over call histories (that is C09); the one history exercised is a failed "
@@ -65,7 +68,8 @@ ASSUMPTIONS = [
     "path); a Decimal is compared by value (Decimal('1.50') == Decimal('1.5')), as Python does",
 ]
 EXHAUSTIVE = {"quick": False, "thorough": False}
-FINDING_CLASSES = {1: "union-reselects-member", 2: "union-reselects-member", 3: "union-dump-wrong-member", 4: "set-dump-order"}
+FINDING_CLASSES = {1: "union-reselects-member", 2: "union-reselects-member", 3: "union-dump-wrong-member", 4: "set-dump-order",
+                   5: "dict-kwargs-default-merge"}
 
 # ---------------------------------------------------------------------------------------------------------------------
 # tagged values / types
@@ -448,7 +452,29 @@ FAMILIES = {
             "MlpNet": {"hidden": "int", "dropout": "float", "width": "int"}},
     "Opt": {"Opt": {"lr": "float"}, "Sgd": {"momentum": "float", "nesterov": "bool", "lr": "float"},
             "Adam": {"eps": "float", "decay": "float", "lr": "float"}},
+    "Plug": {"Plug": {"x": "int"}, "Legacy": {"a": "int"}, "Modern": {"b": "int"}, "Strict": {"c": "int"}},
 }
+KWARGS_CLASSES = ["Legacy", "Modern"]          # **kwargs kept by the class: extra keys travel as dict_kwargs
+EXTRA_KEYS = ["p", "q", "r"]
+
+
+def gen_extras(rng, cls, prob):
+    if cls not in KWARGS_CLASSES or rng.random() > prob:
+        return []
+    return [[q, rng.choice([I(1), I(2), S("v"), F(0.5)])] for q in rng.sample(EXTRA_KEYS, rng.randint(1, 2))]
+
+
+def sub_default(rng, fam, cls):
+    """a declared default for a subclass-typed option: lazy_instance or a spec dict; **kwargs classes may carry dict_kwargs"""
+    ps = [[q, param_value(rng, fam[cls][q])] for q in sorted(fam[cls]) if rng.random() < 0.6]
+    extras = gen_extras(rng, cls, 0.7)
+    if extras:                       # lazy_instance does not take extra keyword arguments: a spec dict carries them
+        spec = [(S("class_path"), S("c10_classes." + cls))]
+        if ps:
+            spec.append((S("init_args"), D([(S(q), v) for q, v in ps])))
+        spec.append((S("dict_kwargs"), D([(S(q), v) for q, v in extras])))
+        return D(spec), extras
+    return ["lazy", cls, ps], []
 OPTIONAL_PARAMS = {"ConvNet": ["stride"], "MlpNet": ["dropout"], "Sgd": ["nesterov"], "Adam": ["decay"]}   # default None: dump omits them
 NAMEPOOLS = [["model", "model_ema"], ["model", "model_ema", "mod"], ["opt", "optim"], ["m", "model"], ["k", "k2", "k2b"],
              ["net", "network"], ["a", "ab", "abc"]]
@@ -473,16 +499,23 @@ def gen_x_multi(rng):
         r = rng.random()
         if r < 0.75:
             dcls = rng.choice(sorted(fam)) if rng.random() < 0.8 else None
-            dflt = NONE
+            if dcls and base == "Plug" and rng.random() < 0.5:
+                dcls = rng.choice(KWARGS_CLASSES)
+            dflt, dextras = NONE, []
             if dcls:
-                ps = [q for q in sorted(fam[dcls]) if rng.random() < 0.6]
-                dflt = ["lazy", dcls, [[q, param_value(rng, fam[dcls][q])] for q in ps]]
-            decls.append({"key": name, "ty": ["sub", base], "default": dflt})
+                dflt, dextras = sub_default(rng, fam, dcls)
+            decl = {"key": name, "ty": ["sub", base], "default": dflt}
+            if dextras:
+                decl["default_kwargs_class"] = "c10_classes." + dcls      # the default carries dict_kwargs (judge: XSubKw)
+            decls.append(decl)
             if rng.random() < 0.75:
                 switch = dcls is None or rng.random() < 0.6
                 cls = rng.choice(sorted(fam)) if switch else dcls
+                if switch and base == "Plug" and rng.random() < 0.5:
+                    cls = rng.choice(KWARGS_CLASSES)
                 ps = [q for q in sorted(fam[cls]) if rng.random() < 0.4]
-                settings.append((name, "sub", (cls if switch else None, [[q, param_value(rng, fam[cls][q])] for q in ps])))
+                settings.append((name, "sub", (cls if switch else None, [[q, param_value(rng, fam[cls][q])] for q in ps],
+                                              gen_extras(rng, cls, 0.75))))
         else:
             leaf, vals = rng.choice([lv for lv in X_LEAVES if lv[0][0] not in ("data", "sub")] + [(INT, [S("3"), I(4)]), (STR, [S("abc")])])
             decls.append({"key": name, "ty": leaf, "default": NONE})
@@ -514,31 +547,40 @@ def gen_x_multi(rng):
             if kind == "leaf":
                 argv.append("--%s=%s" % (name, pl[1] if pl[0] == "str" else render(pl)))
                 continue
-            cls, ps = pl
+            cls, ps, extras = pl
             style = rng.randrange(4)
             if cls and style == 0:
                 spec = {"class_path": cls}
                 if ps:
                     spec["init_args"] = {q: json.loads(render(v)) for q, v in ps}
+                if extras:
+                    spec["dict_kwargs"] = {q: json.loads(render_q(v)) for q, v in extras}
                 argv.append("--%s=%s" % (name, json.dumps(spec)))
                 continue
             if cls:
                 argv.append(("--%s=%s" if style != 1 else "--%s.class_path=%s") % (name, cls if rng.random() < 0.7 else "c10_classes." + cls))
             for q, v in ps:
                 argv.append(("--%s.%s=%s" if rng.random() < 0.6 else "--%s.init_args.%s=%s") % (name, q, render(v)))
+            for q, v in extras:
+                argv.append(("--%s.%s=%s" if rng.random() < 0.5 else "--%s.dict_kwargs.%s=%s") % (name, q, v[1] if v[0] == "str" else render(v)))
         case["input"] = argv
     else:
         kvs = []
+        decl_by_name = {d["key"]: d for d in decls}
         for name, kind, pl in settings:
             if kind == "leaf":
                 kvs.append((S(name), pl))
                 continue
-            cls, ps = pl
+            cls, ps, extras = pl
             spec = []
             if cls:
                 spec.append((S("class_path"), S(cls if rng.random() < 0.6 else "c10_classes." + cls)))
+            elif extras and decl_by_name[name].get("default_kwargs_class"):
+                spec.append((S("class_path"), S(decl_by_name[name]["default_kwargs_class"])))   # the same class, spelled out
             if ps:
                 spec.append((S("init_args"), D([(S(q), v) for q, v in ps])))
+            if extras:
+                spec.append((S("dict_kwargs"), D([(S(q), v) for q, v in extras])))
             if spec:
                 kvs.append((S(name), D(spec)))
         text = "".join("%s: %s\n" % (k[1], json.dumps(v[1]) if v[0] == "str" else render(v)) for k, v in kvs) or "{}"
@@ -728,6 +770,48 @@ def gen_x_text(rng):
     return case
 
 
+def gen_x_kwargs(rng):
+    """subclass-typed options whose default spec carries dict_kwargs; the input keeps the class, switches to the other
+    **kwargs class or to a class without **kwargs, with or without its own extras, through every channel"""
+    fam = FAMILIES["Plug"]
+    names = rng.choice([["k"], ["plug", "plug2"], ["k", "name"]])
+    decls, kvs, argv = [], [], []
+    for name in names:
+        if name == "name":
+            decls.append({"key": name, "ty": STR, "default": S("run")})
+            continue
+        dcls = rng.choice(KWARGS_CLASSES)
+        dflt, dextras = sub_default(rng, fam, dcls)
+        while not dextras:
+            dflt, dextras = sub_default(rng, fam, dcls)
+        decls.append({"key": name, "ty": ["sub", "Plug"], "default": dflt, "default_kwargs_class": "c10_classes." + dcls})
+        if rng.random() < 0.15:
+            continue
+        cls = rng.choice([dcls, [c for c in KWARGS_CLASSES if c != dcls][0], "Strict", "Plug"])
+        ps = [[q, param_value(rng, fam[cls][q])] for q in sorted(fam[cls]) if rng.random() < 0.4]
+        extras = gen_extras(rng, cls, 0.8)
+        spec = [(S("class_path"), S("c10_classes." + cls if rng.random() < 0.7 else cls))]
+        if ps:
+            spec.append((S("init_args"), D([(S(q), v) for q, v in ps])))
+        if extras:
+            spec.append((S("dict_kwargs"), D([(S(q), v) for q, v in extras])))
+        kvs.append((S(name), D(spec)))
+        argv.append("--%s=%s" % (name, render_q(D(spec))))
+    ch = rng.choice(["string", "cfgfile", "object", "args", "string"])
+    case = {"kind": "x", "decls": decls, "channel": ch}
+    text = "".join("%s: %s\n" % (k[1], render_q(v)) for k, v in kvs) or "{}"
+    if ch == "object":
+        case["input"] = D(kvs)
+    elif ch == "args":
+        case["input"] = argv
+    elif ch == "string":
+        case["input"] = text
+    else:
+        case["files"] = {"main.yaml": text}
+        case["input"] = ["--cfg=main.yaml"]
+    return case
+
+
 def gen_x(rng):
     r = rng.random()
     if r < 0.3:
@@ -738,6 +822,8 @@ def gen_x(rng):
         return gen_x_nested(rng)
     if r < 0.75:
         return gen_x_text(rng)
+    if r < 0.80:
+        return gen_x_kwargs(rng)
     r = rng.random()
     if r < 0.25:
         # a modelled type through the argv / string channel, now and then with a list append
@@ -833,6 +919,17 @@ def curated_x():
         one_x(STR, "object", D([(S("k"), S("-1e3"))])), one_x(["list", STR], "object", D([(S("k"), L([S("+2E10"), S("1_000"), S("0x1F")]))])),
         one_x(["dict", False, STR], "object", D([(S("k"), D([(S("a"), S("-1.5e3")), (S("b"), S("yes"))]))])),
         one_x(["union", [STR, NON]], "args", ["--k=1:30"]), one_x(STR, "string", 'k: "~"\n'),
+        # a default spec that carries dict_kwargs: the same **kwargs class with its own extras (finding dict-kwargs-default-merge),
+        # another **kwargs class with its own extras, and a class without **kwargs
+        {"kind": "x", "decls": [{"key": "k", "ty": ["sub", "Plug"], "default_kwargs_class": "c10_classes.Legacy",
+                                "default": D([(S("class_path"), S("c10_classes.Legacy")), (S("dict_kwargs"), D([(S("p"), I(1))]))])}],
+         "channel": "string", "input": "k: {class_path: c10_classes.Legacy, dict_kwargs: {q: 2}}\n"},
+        {"kind": "x", "decls": [{"key": "k", "ty": ["sub", "Plug"], "default_kwargs_class": "c10_classes.Legacy",
+                                "default": D([(S("class_path"), S("c10_classes.Legacy")), (S("dict_kwargs"), D([(S("p"), I(1))]))])}],
+         "channel": "string", "input": "k: {class_path: c10_classes.Modern, dict_kwargs: {q: 2}}\n"},
+        {"kind": "x", "decls": [{"key": "k", "ty": ["sub", "Plug"], "default_kwargs_class": "c10_classes.Legacy",
+                                "default": D([(S("class_path"), S("c10_classes.Legacy")), (S("dict_kwargs"), D([(S("p"), I(1))]))])}],
+         "channel": "cfgfile", "files": {"main.yaml": "k: {class_path: c10_classes.Strict, init_args: {c: 5}}\n"}, "input": ["--cfg=main.yaml"]},
         # subclass-typed options with defaults under prefix-related names, the later one switched to another class
         {"kind": "x", "decls": [{"key": "model", "ty": ["sub", "Net"], "default": ["lazy", "ConvNet", [["kernel", I(5)]]]},
                                 {"key": "model_ema", "ty": ["sub", "Net"], "default": ["lazy", "ConvNet", [["kernel", I(7)]]]},
@@ -1013,7 +1110,8 @@ def term(case, obs):
                     for d, dv in zip(case["decls"], obs["seen"]["defaults"])], "decl")
         return "NsCase %s (%s) %s %s %s %s" % (p, g_val(obs["seen"]["obj"]), g_oracle(obs["oracle"]), g_outcome(obs["first"]),
                                              g_bool(obs["valid"]), again)
-    sk = g_list([g_xty(d["ty"]) for d in case["decls"]], "xty")
+    sk = g_list(["(XSubKw %s)" % g_str(d["default_kwargs_class"]) if d.get("default_kwargs_class") else g_xty(d["ty"])
+                 for d in case["decls"]], "xty")
     dl = obs.get("dump") or {"reparsed": ["rejected"], "text1": None, "text2": None}
     gt = lambda t: "None" if t is None else "(Some %s)" % g_str(t)  # noqa: E731
     return "XCase %s %s %s %s %s %s %s" % (sk, g_outcome(obs["first"]), g_bool(obs["valid"]), again, g_outcome(dl["reparsed"]),
@@ -1287,7 +1385,7 @@ META = {
                   "append, the as_dict() form of the re-parse (the model re-parses the flat key/value list), and the whole dump / "
                   "parse_string / dump clause of the property (observed for every such case: the configuration read back must equal "
                   "the configuration and the second dump must be byte-identical; no theorem about serialisation here, C01 proves "
-                  "serialize/adapt inversion for the plain grammar). Open finding on that leg: union-dump-wrong-member "
+                  "serialize/adapt inversion for the plain grammar). Open findings in the x space: dict-kwargs-default-merge (object re-parse leg), union-dump-wrong-member (dump leg) "
                   "(set-dump-order was fixed by 42b663b; its class stays in the judge, a recurrence is a VIOLATION). Not covered: environment, config files, subcommands, links. Trusted: Coq "
                   "kernel/VM; the hand-written models outside the generated cases; the observation harness; the real text "
                   "readers, whose answers are fed to the model per case. No axioms.",
